@@ -13,18 +13,19 @@ import (
 type NilV struct{}
 
 type EvalCtx struct {
-	sp      *Specs
-	env     map[string]Val
-	st      *State // state in which the expression is evaluated
-	old     *State // pre-state for old(); nil if not available
-	assume  bool   // true: the expression is being assumed (callee post / requires); false: goal
-	skolems *[]*T
-	lemmas  *[]*Lemma // assume mode: quantified clauses end up here
-	origin  string
-	ex      *Exec
-	depth   int
-	inOld   bool
-	defs    *[]*T // sink for definitional side constraints (fresh floors)
+	sp       *Specs
+	env      map[string]Val
+	st       *State // state in which the expression is evaluated
+	old      *State // pre-state for old(); nil if not available
+	assume   bool   // true: the expression is being assumed (callee post / requires); false: goal
+	skolems  *[]*T
+	lemmas   *[]*Lemma // assume mode: quantified clauses end up here
+	origin   string
+	ex       *Exec
+	depth    int
+	inOld    bool
+	defs     *[]*T // sink for definitional side constraints (fresh floors)
+	fragErrs *[]string
 }
 
 type specPanic struct{ msg string }
@@ -520,6 +521,12 @@ func (c *EvalCtx) call(n *Node) Val {
 			return mkEq(toReal(k), t)
 		}
 		return mkIsInt(t)
+	case "gomod":
+		a, b := c.evalTerm(n.Kids[0]), c.evalTerm(n.Kids[1])
+		if a.Sort != SInt || b.Sort != SInt {
+			specErr(n, "gomod on non-integers")
+		}
+		return &T{Op: "gomod", Args: []*T{a, b}, Sort: SInt}
 	case "pow2":
 		k, ok := c.evalTerm(n.Kids[0]).intVal()
 		if !ok {
